@@ -12,10 +12,12 @@ RULE = ('generated clusters whose processes change state continuously (automatic
         'compared; distinct = distinct (topology, strategies, distributions, actions) tuples')
 ASSUMPTIONS = ['quiescence = all proxy FIFOs empty, no deferred call, no peer in CHECKING / CHECKED / FAILED']
 FLOORS = {'quick': {'groups_evaluated': 150, 'process_views_compared': 3000, 'running_views_compared': 500,
-                    'pairs_compared': 1500, 'numprocs_requests_served': 80, 'groups_removed': 25},
+                    'pairs_compared': 1500, 'numprocs_requests_served': 80, 'groups_removed': 25,
+                    'host_reboots': 30},
           'thorough': {'groups_evaluated': 4000, 'process_views_compared': 80000, 'running_views_compared': 12000,
-                       'pairs_compared': 40000, 'numprocs_requests_served': 1200, 'groups_removed': 400}}
-COUNT = {'quick': 1600, 'thorough': 12000}
+                       'pairs_compared': 40000, 'numprocs_requests_served': 1200, 'groups_removed': 400,
+                       'host_reboots': 600}}
+COUNT = {'quick': 1280, 'thorough': 12000}
 BUDGET_S = {'quick': 55, 'thorough': 540}
 
 KNOBS = {'n_min': 2, 'n_max': 4,
